@@ -5,11 +5,17 @@
 //!    cond  0 = always true, 1 = left.v < right.v, 2 = left.v != right.v, 3 = left.ts <= right.ts
 //!    op    `L<id>:<ts>:<key|->:<v>` `R…` `X…`  event on stream left / right / other
 //!          `Wl<int>` `Wr<int>` `Wx<int>`       watermark (stream letter used in manager mode)
+//!          an event may carry a 5th field `:<decoy>`: the value put under the OTHER side's key field (see `mk_event`)
 //! obs  := `nocalls` | call;call;…   call := `-` | `lid:rid,…` sorted   (the Vec<JoinedEvent> of that call)
+//! key fields: the LEFT key extractor reads data["k"], the RIGHT key extractor reads data["rk"]. An `L` event keeps its
+//!    key under "k", an `R` event under "rk"; the decoy (if any) goes under the other field and must not matter.
 //! multi-join manager case := `J <join+join+…> <op,op,…>`  (several joins registered on ONE StreamJoinManager)
 //!    join  `<l><r>:<durMs>:<cond>`  l, r = stream letters a..e, l != r; registered in list order as j0, j1, …
 //!    op    `A<id>:<ts>:<key|->:<v>` … `E…`  process_event of an event whose source is stream a..e
 //!          `Wa<int>` … `We<int>`            update_watermark(stream, w)
+//!          `U<i>`  unregister_join("j<i>")   `G<i>`  register_join("j<i>", fresh node of join i, handler -> sink i)
+//!                  (per join strictly alternating U, G, starting registered; anything else is `bad-case`)
+//!    (in this mode an event carries its key under BOTH key fields: a stream may be a left and a right input)
 //! obs  := `nocalls` | call;call;…   call := batch/batch/…  one batch per registered join (what ITS handler received)
 use rre_harness::*;
 use rust_rule_engine::rete::stream_join_node::{JoinStrategy, JoinType, JoinedEvent, StreamJoinNode};
@@ -26,25 +32,30 @@ struct Ev {
     ts: u64,
     key: Option<u64>,
     v: i64,
+    /// value stored under the OTHER side's key field (None: that field is absent)
+    decoy: Option<u64>,
 }
 
 #[derive(Clone, Debug, PartialEq)]
 enum Op {
-    Ev(char, Ev),  // 'L' | 'R' | 'X'
-    Wm(char, i64), // 'l' | 'r' | 'x'
+    Ev(char, Ev),     // 'L' | 'R' | 'X'
+    Wm(char, i64),    // 'l' | 'r' | 'x'
+    Ctl(char, usize), // 'U' unregister join i | 'G' register join i again (multi-join manager mode only)
 }
 
 fn show_op(op: &Op) -> String {
     match op {
         Op::Ev(s, e) => format!(
-            "{}{}:{}:{}:{}",
+            "{}{}:{}:{}:{}{}",
             s,
             e.id,
             e.ts,
             e.key.map(|k| k.to_string()).unwrap_or_else(|| "-".into()),
-            e.v
+            e.v,
+            e.decoy.map(|d| format!(":{}", d)).unwrap_or_default()
         ),
         Op::Wm(s, w) => format!("W{}{}", s, w),
+        Op::Ctl(c, i) => format!("{}{}", c, i),
     }
 }
 
@@ -99,12 +110,30 @@ fn parse_jcase(case: &str) -> Option<(Vec<JoinSpec>, Vec<Op>)> {
     // only stream letters a..e in this mode
     for op in &ops {
         match op {
-            Op::Ev(c, _) if ('A'..='E').contains(c) => {}
+            Op::Ev(c, e) if ('A'..='E').contains(c) && e.decoy.is_none() => {}
             Op::Wm(c, _) if ('a'..='e').contains(c) => {}
+            Op::Ctl(_, i) if *i < joins.len() => {}
             _ => return None,
         }
     }
+    if !ctl_valid(joins.len(), &ops) {
+        return None;
+    }
     Some((joins, ops))
+}
+
+/// per join the control ops alternate U, G, U, … (a join is registered when the run starts)
+fn ctl_valid(njoins: usize, ops: &[Op]) -> bool {
+    let mut reg = vec![true; njoins];
+    for op in ops {
+        if let Op::Ctl(c, i) = op {
+            if *i >= njoins || reg[*i] != (*c == 'U') {
+                return false;
+            }
+            reg[*i] = *c == 'G';
+        }
+    }
+    true
 }
 
 fn parse_op(s: &str) -> Option<Op> {
@@ -112,7 +141,7 @@ fn parse_op(s: &str) -> Option<Op> {
     match c {
         'L' | 'R' | 'X' | 'A'..='E' => {
             let f: Vec<&str> = s[1..].split(':').collect();
-            if f.len() != 4 {
+            if f.len() != 4 && f.len() != 5 {
                 return None;
             }
             Some(Op::Ev(
@@ -122,9 +151,11 @@ fn parse_op(s: &str) -> Option<Op> {
                     ts: f[1].parse().ok()?,
                     key: if f[2] == "-" { None } else { Some(f[2].parse().ok()?) },
                     v: f[3].parse().ok()?,
+                    decoy: if f.len() == 5 { Some(f[4].parse().ok()?) } else { None },
                 },
             ))
         }
+        'U' | 'G' => Some(Op::Ctl(c, s[1..].parse().ok()?)),
         'W' => {
             let st = s[1..].chars().next()?;
             if !"lrxabcde".contains(st) {
@@ -174,18 +205,35 @@ fn stream_name(c: char) -> &'static str {
     }
 }
 
+/// field read by the left key extractor / by the right key extractor
+const LKEY: &str = "k";
+const RKEY: &str = "rk";
+
 fn mk_event(side: char, e: &Ev) -> StreamEvent {
     let mut data = HashMap::new();
-    match e.key {
-        Some(k) => {
-            data.insert("k".to_string(), Value::String(format!("key{}", k)));
-        }
-        // key-less: the field is absent, or present with a non-string value (extractor -> None)
-        None => {
-            if e.id % 2 == 1 {
-                data.insert("k".to_string(), Value::Integer(7));
+    // the event's own key field(s): a left event is keyed under LKEY, a right event under RKEY; an event of the
+    // multi-join mode (stream letters A..E: possibly a left input of one join and a right input of another) under both
+    let (own, other): (&[&str], Option<&str>) = match side {
+        'R' => (&[RKEY], Some(LKEY)),
+        'L' | 'X' => (&[LKEY], Some(RKEY)),
+        _ => (&[LKEY, RKEY], None),
+    };
+    for f in own {
+        match e.key {
+            Some(k) => {
+                data.insert(f.to_string(), Value::String(format!("key{}", k)));
+            }
+            // key-less: the field is absent, or present with a non-string value (extractor -> None)
+            None => {
+                if e.id % 2 == 1 {
+                    data.insert(f.to_string(), Value::Integer(7));
+                }
             }
         }
+    }
+    // decoy: a perfectly good key value under the field only the OTHER side's extractor reads
+    if let (Some(f), Some(d)) = (other, e.decoy) {
+        data.insert(f.to_string(), Value::String(format!("key{}", d)));
     }
     data.insert("v".to_string(), Value::Integer(e.v));
     let mut ev = StreamEvent::with_timestamp("e", data, stream_name(side), e.ts);
@@ -213,8 +261,8 @@ fn mk_node_on(left: &str, right: &str, dur: u64, cond: u64) -> StreamJoinNode {
         right.to_string(),
         JoinType::Inner,
         JoinStrategy::TimeWindow { duration: Duration::from_millis(dur) },
-        Box::new(|e| e.data.get("k").and_then(|v| v.as_string())),
-        Box::new(|e| e.data.get("k").and_then(|v| v.as_string())),
+        Box::new(|e| e.data.get(LKEY).and_then(|v| v.as_string())),
+        Box::new(|e| e.data.get(RKEY).and_then(|v| v.as_string())),
         c,
     )
 }
@@ -261,6 +309,17 @@ fn exec_multi(joins: &[JoinSpec], ops: &[Op]) -> String {
         match op {
             Op::Ev(s, e) => mgr.process_event(mk_event(*s, e)),
             Op::Wm(s, w) => mgr.update_watermark(stream_name(*s), *w),
+            Op::Ctl('U', i) => mgr.unregister_join(&format!("j{}", i)),
+            Op::Ctl(_, i) => {
+                // the same join again: same id, same streams and parameters, a fresh node, results into the same sink
+                let j = &joins[*i];
+                let s2 = sinks[*i].clone();
+                mgr.register_join(
+                    format!("j{}", i),
+                    mk_node_on(stream_name(j.l), stream_name(j.r), j.dur, j.cond),
+                    Box::new(move |je| s2.lock().unwrap().push(je)),
+                );
+            }
         }
         let row: Vec<String> = sinks
             .iter()
@@ -289,6 +348,7 @@ fn exec(case: &str) -> String {
                 Op::Ev('R', e) => node.process_right(mk_event('R', e)),
                 Op::Ev(_, _) => vec![], // an event of an unrelated stream is never handed to the node
                 Op::Wm(_, w) => node.update_watermark(*w),
+                Op::Ctl(_, _) => return "bad-case".into(),
             };
             calls.push(show_call(&out));
         }
@@ -305,6 +365,7 @@ fn exec(case: &str) -> String {
             match op {
                 Op::Ev(s, e) => mgr.process_event(mk_event(*s, e)),
                 Op::Wm(s, w) => mgr.update_watermark(stream_name(*s), *w),
+                Op::Ctl(_, _) => return "bad-case".into(),
             }
             let out: Vec<JoinedEvent> = sink.lock().unwrap().drain(..).collect();
             calls.push(show_call(&out));
@@ -381,7 +442,7 @@ fn with_unrouted(ops: &[Op], rng: &mut Rng) -> Vec<Op> {
     for op in ops {
         if rng.chance(1, 4) {
             if rng.chance(1, 2) {
-                out.push(Op::Ev('X', Ev { id: 50 + rng.below(5), ts: rng.below(8), key: Some(rng.below(2)), v: 0 }));
+                out.push(Op::Ev('X', Ev { id: 50 + rng.below(5), ts: rng.below(8), key: Some(rng.below(2)), v: 0, decoy: None }));
             } else {
                 out.push(Op::Wm('x', 1000));
             }
@@ -398,6 +459,7 @@ fn rand_events(rng: &mut Rng, n: usize, nkeys: u64, dom: u64, keyless: bool) -> 
             ts: rng.below(dom),
             key: if keyless && rng.chance(1, 5) { None } else { Some(rng.below(nkeys)) },
             v: rng.below(3) as i64 - 1,
+            decoy: None,
         })
         .collect()
 }
@@ -408,6 +470,7 @@ fn shifted(ops: &[Op], base: u64) -> Vec<Op> {
         .map(|op| match op {
             Op::Ev(s, e) => Op::Ev(*s, Ev { ts: e.ts + base, ..e.clone() }),
             Op::Wm(s, w) => Op::Wm(*s, *w + base as i64),
+            Op::Ctl(c, i) => Op::Ctl(*c, *i),
         })
         .collect()
 }
@@ -488,6 +551,7 @@ fn long_history(rng: &mut Rng, nl: usize, nr: usize) -> (u64, u64, Vec<Op>) {
             ts,
             key: if keyless && rng.chance(1, 8) { None } else { Some(rng.below(nkeys)) },
             v: rng.below(3) as i64 - 1,
+            decoy: None,
         };
         *id += 1;
         ops.push(Op::Ev(*sd, e));
@@ -665,6 +729,126 @@ fn multi_join_cases(rng: &mut Rng, out: &mut Vec<String>, thorough: bool) {
     }
 }
 
+/// family "the two sides keep their join key under DIFFERENT fields": some events also carry a value under the
+/// field only the other side's extractor reads — the own key, another key of the domain, or a key nobody uses;
+/// key-less events get one too (an extractor applied to the wrong side would revive them)
+fn with_decoys(evs: Vec<Ev>, nkeys: u64, rng: &mut Rng) -> Vec<Ev> {
+    let every = rng.chance(1, 4);
+    evs.into_iter()
+        .map(|e| {
+            if every || rng.chance(1, 3) {
+                let d = match (e.key, rng.below(4)) {
+                    (Some(k), 0) => k,
+                    (Some(k), 1) => (k + 1) % nkeys.max(2),
+                    _ => rng.below(nkeys + 1),
+                };
+                Ev { decoy: Some(d), ..e }
+            } else {
+                e
+            }
+        })
+        .collect()
+}
+
+fn pick_joins(rng: &mut Rng) -> Vec<JoinSpec> {
+    let durs = [0u64, 999, 1000, 1999, 2000, 3000, 5000, 5000];
+    let names: &[&str] = TOPOLOGIES[rng.below(TOPOLOGIES.len() as u64) as usize];
+    let same = rng.chance(1, 2);
+    let (d0, c0) = (*rng.pick(&durs), if rng.chance(2, 3) { 0 } else { rng.range(1, 3) });
+    names
+        .iter()
+        .map(|n| {
+            let cs: Vec<char> = n.chars().collect();
+            let (dur, cond) =
+                if same { (d0, c0) } else { (*rng.pick(&durs), if rng.chance(2, 3) { 0 } else { rng.range(1, 3) }) };
+            JoinSpec { l: cs[0], r: cs[1], dur, cond }
+        })
+        .collect()
+}
+
+/// family "joins come and go on a live manager": `unregister_join(id)` and `register_join(same id, fresh node)` before
+/// the first event, back to back in the middle of a run, with traffic in between, several times over, for one or two
+/// of the registered joins, and unregistering without coming back. A re-registered join starts with empty buffers:
+/// its batches are compared with the reference join of what arrived SINCE the registration; while it is away its
+/// handler must receive nothing; the other joins of the manager must not notice.
+fn ctl_cases(rng: &mut Rng, out: &mut Vec<String>, thorough: bool) {
+    let joins = pick_joins(rng);
+    let mut streams: Vec<char> = Vec::new();
+    for j in &joins {
+        for c in [j.l, j.r] {
+            if !streams.contains(&c) {
+                streams.push(c);
+            }
+        }
+    }
+    streams.sort();
+    let maxper: u64 = if thorough { 4 } else { 3 };
+    let nkeys = rng.range(1, 2);
+    let dom = *rng.pick(&[3u64, 5, 8]);
+    let keyless = rng.chance(1, 4);
+    let seqs: Vec<Vec<Op>> = streams
+        .iter()
+        .map(|c| {
+            let n = rng.range(1, maxper).max(rng.range(0, maxper)) as usize;
+            rand_events(rng, n, nkeys, dom, keyless).into_iter().map(|e| Op::Ev(c.to_ascii_uppercase(), e)).collect()
+        })
+        .collect();
+    let slack = rng.below(4) as i64;
+    for m in merges_k(&seqs, if thorough { 24 } else { 8 }, rng) {
+        let i = rng.below(joins.len() as u64) as usize;
+        let n = m.len();
+        let ug = |k: usize| vec![Op::Ctl('U', k), Op::Ctl('G', k)];
+        let splice = |base: &[Op], at: usize, ins: Vec<Op>| -> Vec<Op> {
+            let mut v = base[..at].to_vec();
+            v.extend(ins);
+            v.extend_from_slice(&base[at..]);
+            v
+        };
+        let mut variants: Vec<Vec<Op>> = Vec::new();
+        // (a) before any event; sometimes several times over, sometimes for a second join as well
+        let mut pre = ug(i);
+        if rng.chance(1, 3) {
+            pre.extend(ug(i));
+        }
+        if joins.len() > 1 && rng.chance(1, 2) {
+            let i2 = (i + 1 + rng.below(joins.len() as u64 - 1) as usize) % joins.len();
+            let at = rng.below(pre.len() as u64 / 2 + 1) as usize * 2;
+            pre = splice(&pre, at, ug(i2));
+        }
+        let a = splice(&m, 0, pre);
+        variants.push(a.clone());
+        // (b) back to back in the middle of the run
+        let p = rng.below(n as u64 + 1) as usize;
+        variants.push(splice(&m, p, ug(i)));
+        // (c) away for a while: traffic between U and G; then possibly once more
+        let q = p + rng.below((n - p) as u64 + 1) as usize;
+        let mut c = splice(&m, q, vec![Op::Ctl('G', i)]);
+        c = splice(&c, p, vec![Op::Ctl('U', i)]);
+        if rng.chance(1, 3) {
+            let at = q + 2 + rng.below((n - q) as u64 + 1) as usize;
+            c = splice(&c, at, ug(i));
+        }
+        variants.push(c);
+        // (d) gone for good
+        variants.push(splice(&m, p, vec![Op::Ctl('U', i)]));
+        // (e) (a) with a tracking watermark on a random consumed stream after every arrival
+        let mut e = Vec::new();
+        let mut mx: i64 = 0;
+        for op in &a {
+            e.push(op.clone());
+            if let Some(t) = ts_of(op) {
+                mx = mx.max(t as i64);
+                e.push(Op::Wm(*rng.pick(&streams), mx - slack));
+            }
+        }
+        variants.push(e);
+        for v in variants {
+            debug_assert!(ctl_valid(joins.len(), &v));
+            out.push(show_jcase(&joins, &v));
+        }
+    }
+}
+
 fn gen(rng: &mut Rng, n: usize, tier: &str) -> Vec<String> {
     let mut out = Vec::new();
     let maxn: u64 = if tier == "thorough" { 4 } else { 3 };
@@ -676,7 +860,7 @@ fn gen(rng: &mut Rng, n: usize, tier: &str) -> Vec<String> {
     let nc = choices.len();
     for code in 0..nc * nc * nc * nc {
         let pick = |j: usize| choices[(code / nc.pow(j as u32)) % nc];
-        let ev = |id: u64, c: (u64, Option<u64>)| Ev { id, ts: c.0, key: c.1, v: 0 };
+        let ev = |id: u64, c: (u64, Option<u64>)| Ev { id, ts: c.0, key: c.1, v: 0, decoy: None };
         let ls = vec![ev(0, pick(0)), ev(1, pick(1))];
         let rs = vec![ev(0, pick(2)), ev(1, pick(3))];
         for (mi, m) in merges(&ls, &rs).iter().enumerate() {
@@ -699,6 +883,9 @@ fn gen(rng: &mut Rng, n: usize, tier: &str) -> Vec<String> {
         let cond = if rng.chance(1, 2) { 0 } else { rng.range(1, 3) };
         let ls = rand_events(rng, nl, nkeys, dom, keyless);
         let rs = rand_events(rng, nr, nkeys, dom, keyless);
+        // half of the configurations: decoy values under the other side's key field
+        let (ls, rs) =
+            if rng.chance(1, 2) { (with_decoys(ls, nkeys, rng), with_decoys(rs, nkeys, rng)) } else { (ls, rs) };
         let slack = rng.below(4) as i64;
         for m in merges(&ls, &rs) {
             let mode = if rng.chance(1, 2) { 'D' } else { 'M' };
@@ -720,6 +907,17 @@ fn gen(rng: &mut Rng, n: usize, tier: &str) -> Vec<String> {
         let nr = if rng.chance(1, 4) { rng.range(1, 4) as usize } else { rng.range(5, maxlong) as usize };
         let (nl, nr) = if rng.chance(1, 2) { (nl, nr) } else { (nr, nl) };
         let (dur, cond, ops) = long_history(rng, nl, nr);
+        // one in three: decoy values under the other side's key field on some events
+        let ops: Vec<Op> = if rng.chance(1, 3) {
+            ops.into_iter()
+                .map(|op| match op {
+                    Op::Ev(s, e) if rng.chance(1, 3) => Op::Ev(s, Ev { decoy: Some(rng.below(3)), ..e }),
+                    o => o,
+                })
+                .collect()
+        } else {
+            ops
+        };
         let mode = if i % 3 == 2 { 'M' } else { 'D' };
         let ops = if mode == 'M' && rng.chance(1, 2) { with_unrouted(&ops, rng) } else { ops };
         // one in six of them on epoch-scale timestamps
@@ -743,6 +941,8 @@ fn gen(rng: &mut Rng, n: usize, tier: &str) -> Vec<String> {
         let cond = if rng.chance(2, 3) { 0 } else { rng.range(1, 3) };
         let ls = rand_events(rng, nl, nkeys, dom, false);
         let rs = rand_events(rng, nr, nkeys, dom, false);
+        let (ls, rs) =
+            if rng.chance(1, 3) { (with_decoys(ls, nkeys, rng), with_decoys(rs, nkeys, rng)) } else { (ls, rs) };
         let slack = rng.below(4) as i64;
         for m in merges(&ls, &rs) {
             let mode = if rng.chance(2, 3) { 'D' } else { 'M' };
@@ -765,6 +965,12 @@ fn gen(rng: &mut Rng, n: usize, tier: &str) -> Vec<String> {
     // join's batches are compared with ITS OWN reference join
     for _ in 0..n / 6 {
         multi_join_cases(rng, &mut out, thorough);
+    }
+
+    // (6) joins unregistered and registered again under the same id on a live manager (before the first event, in
+    // the middle of a run, away for a while, gone for good), next to joins that stay
+    for _ in 0..n / 6 {
+        ctl_cases(rng, &mut out, thorough);
     }
     out
 }
@@ -792,32 +998,40 @@ fn shrink_values(ops: &[Op]) -> Vec<Vec<Op>> {
                     .map(|op| match op {
                         Op::Ev(s, e) => Op::Ev(*s, Ev { ts: e.ts - sub, ..e.clone() }),
                         Op::Wm(s, w) => Op::Wm(*s, *w - sub as i64),
+                        Op::Ctl(c, i) => Op::Ctl(*c, *i),
                     })
                     .collect(),
             );
         }
     }
     for i in 0..ops.len() {
-        let mut v = ops.to_vec();
-        match &mut v[i] {
-            Op::Ev(_, e) => {
+        match &ops[i] {
+            Op::Ctl(_, _) => {}
+            Op::Ev(s, e) => {
+                // one candidate per thing that can get smaller: drop the decoy, zero the payload, lower the timestamp
+                let mut cands: Vec<Ev> = Vec::new();
+                if e.decoy.is_some() {
+                    cands.push(Ev { decoy: None, ..e.clone() });
+                }
                 if e.v != 0 {
-                    e.v = 0;
+                    cands.push(Ev { v: 0, ..e.clone() });
                 } else if e.ts > 0 {
-                    e.ts -= 1;
-                } else {
-                    continue;
+                    cands.push(Ev { ts: e.ts - 1, ..e.clone() });
+                }
+                for c in cands {
+                    let mut v = ops.to_vec();
+                    v[i] = Op::Ev(*s, c);
+                    out.push(v);
                 }
             }
-            Op::Wm(_, w) => {
+            Op::Wm(s, w) => {
                 if *w != 0 {
-                    *w /= 2;
-                } else {
-                    continue;
+                    let mut v = ops.to_vec();
+                    v[i] = Op::Wm(*s, *w / 2);
+                    out.push(v);
                 }
             }
         }
-        out.push(v);
     }
     out
 }
@@ -833,6 +1047,17 @@ fn shrink(case: &str) -> Vec<String> {
                 out.push(show_jcase(&js, &ops));
             }
         }
+        // a whole unregister / register-again pair of one join at once
+        for a in 0..ops.len() {
+            if let Op::Ctl('U', i) = &ops[a] {
+                if let Some(b) = (a + 1..ops.len()).find(|b| matches!(&ops[*b], Op::Ctl(_, k) if k == i)) {
+                    let mut v = ops.clone();
+                    v.remove(b);
+                    v.remove(a);
+                    out.push(show_jcase(&joins, &v));
+                }
+            }
+        }
         out.extend(shrink_list(&ops).into_iter().map(|v| show_jcase(&joins, &v)));
         for i in 0..joins.len() {
             if joins[i].cond != 0 {
@@ -842,6 +1067,8 @@ fn shrink(case: &str) -> Vec<String> {
             }
         }
         out.extend(shrink_values(&ops).into_iter().map(|v| show_jcase(&joins, &v)));
+        // candidates that break the alternation of the control ops (or refer to a dropped join) are not cases
+        out.retain(|c| parse_jcase(c).is_some());
         return out;
     }
     let Some((mode, dur, cond, ops)) = parse_case(case) else { return vec![] };
